@@ -67,7 +67,6 @@ impl MT190 {
 
         verify_parser_complete(&parser)?;
 
-
         Ok(MT190 {
             field_20,
             field_21,
